@@ -265,12 +265,21 @@ def load_known():
         return json.load(f)
 
 
+def _jsonable(o):
+    if isinstance(o, (bytes, bytearray)):
+        return 'hex:' + bytes(o).hex()
+    if isinstance(o, (set, frozenset)):
+        return sorted(map(str, o))
+    return str(o)
+
+
 def write_replay(prop, tag, payload):
     os.makedirs(REPLAYS, exist_ok=True)
-    h = hashlib.sha1(json.dumps(payload, sort_keys=True).encode()).hexdigest()[:10]
+    text = json.dumps(payload, sort_keys=True, indent=1, default=_jsonable)
+    h = hashlib.sha1(text.encode()).hexdigest()[:10]
     path = os.path.join(REPLAYS, f'{prop}_{tag}_{h}.json')
     with open(path, 'w') as f:
-        json.dump(payload, f, indent=1)
+        f.write(text)
     return path
 
 
